@@ -3,7 +3,8 @@
      src/primitives/polyline/styled.rs   StyledPixelsIterator and draw_styled, thin (width <= 1) and thick
      src/primitives/common/scanline.rs   to_rectangle
    The generators (triangle::ScanlineIterator for stroked triangles, polyline::ScanlineIterator) are parameters:
-   the list of items they yield.  For the cases where the generator is modelled (triangle with stroke width 0:
+   the items every row yields (triangle: the iterator is not fused and the two consumers drive it differently, so the
+   protocol of next() is part of the model) resp. the list of items (polyline).  For the cases where the generator is modelled (triangle with stroke width 0:
    Model/Triangle.v tri_scanlines; thin polyline: Model/Polyline.v polyline_points) the functions at the end of the
    file put generator and consumer together; these are what the correspondence suites run.
    Definitions only (extracted).  Colours are abstract tags (Z). *)
@@ -21,12 +22,56 @@ Definition sl_to_rectangle (s : scanline) : rect :=
    default implementation, core/src/draw_target/mod.rs:388-410) *)
 Definition fill_writes (rc : rect * Z) : list (point * Z) := map (fun p => (p, snd rc)) (points (fst rc)).
 
+(* ---- triangle/scanline_iterator.rs: the generator both consumers drive -------------------------------- *)
+
+(* The generator is NOT a list: triangle::ScanlineIterator is an un-fused iterator.  It is given by `rows`, the items
+   that the ScanlineIntersections of every row of the (styled) bounding box yield, and its state is the part of the
+   current row not yet yielded plus the rows not yet loaded. *)
+Definition tline : Type := (scanline * point_type)%type.
+Record gen_state := GS { g_cur : list tline; g_rows : list (list tline) }.
+
+(* scanline_iterator.rs:21-58  new: the first row is loaded; a bounding box without rows gives empty() *)
+Definition gen_new (rows : list (list tline)) : gen_state :=
+  match rows with r :: rest => GS r rest | [] => GS [] [] end.
+
+(* scanline_iterator.rs:62-72  next: `self.intersections.next().or_else(|| { self.scanline_y = self.rows.next()?;
+   reset_with_new_scanline; self.intersections.next() })` - when the current row is used up exactly ONE further row is
+   loaded; if that row yields nothing the call returns None although later rows may yield again *)
+Definition gen_next (g : gen_state) : option tline * gen_state :=
+  match g_cur g with
+  | x :: r => (Some x, GS r (g_rows g))
+  | [] =>
+      match g_rows g with
+      | [] => (None, g)
+      | row :: rest => match row with x :: r => (Some x, GS r rest) | [] => (None, GS [] rest) end
+      end
+  end.
+
+(* what repeated next() calls yield up to the first None *)
+Fixpoint gen_go (rows : list (list tline)) : list tline :=
+  match rows with
+  | [] => []
+  | r :: rest => match r with [] => [] | _ => r ++ gen_go rest end
+  end.
+Definition gen_run (g : gen_state) : list tline := g_cur g ++ gen_go (g_rows g).
+
+(* the sequence a `for` loop sees (draw_styled, Triangle::points()) *)
+Definition for_sequence (rows : list (list tline)) : list tline := gen_run (gen_new rows).
+
+(* the sequence StyledPixelsIterator sees: new() calls next() once and ignores a None there (styled.rs:35-37), then
+   next() is called until the first None *)
+Definition pixels_sequence (rows : list (list tline)) : list tline :=
+  match gen_next (gen_new rows) with
+  | (Some x, g) => x :: gen_run g
+  | (None, g) => gen_run g
+  end.
+
 (* ---- triangle/styled.rs ---------------------------------------------------------------------- *)
 
-(* styled.rs:17-24: lines_iter is represented by the items it still has to yield, current_line (a Scanline used as
-   an iterator, scanline.rs:156-162) by the points it still has to yield *)
+(* styled.rs:17-24: lines_iter is the generator state, current_line (a Scanline used as an iterator,
+   scanline.rs:156-162) is represented by the points it still has to yield *)
 Record tsp_state := TSP {
-  tsp_lines : list (scanline * point_type);
+  tsp_gen : gen_state;
   tsp_current : list point;
   tsp_color : option Z;
   tsp_fill : option Z;
@@ -34,14 +79,15 @@ Record tsp_state := TSP {
 }.
 
 (* styled.rs:27-52  StyledPixelsIterator::new *)
-Definition tsp_new (st : style) (lines : list (scanline * point_type)) : tsp_state :=
-  let '(current_line, point_type, rest) :=
-    match lines with
-    | (l, k) :: rest => (sl_points l, k, rest)
-    | [] => ([], PTStroke, [])                 (* unwrap_or_else(|| (Scanline::new_empty(0), PointType::Stroke)) *)
+Definition tsp_new (st : style) (rows : list (list tline)) : tsp_state :=
+  let '(first, g) := gen_next (gen_new rows) in
+  let '(current_line, point_type) :=
+    match first with
+    | Some (l, k) => (sl_points l, k)
+    | None => ([], PTStroke)                   (* unwrap_or_else(|| (Scanline::new_empty(0), PointType::Stroke)) *)
     end in
   let current_color := match point_type with PTStroke => effective_stroke_color st | PTFill => fill_color st end in
-  TSP rest current_line current_color (fill_color st) (effective_stroke_color st).
+  TSP g current_line current_color (fill_color st) (effective_stroke_color st).
 
 (* styled.rs:58-76  Iterator::next: the `loop`.  None = fuel exhausted (never, see Proofs/Tristyled.v);
    Some (r, s') = returned item and the state afterwards *)
@@ -50,24 +96,27 @@ Fixpoint tsp_next (fuel : nat) (s : tsp_state) : option (option (point * Z) * ts
   | O => None
   | Datatypes.S k =>
       let fetch :=
-        match tsp_lines s with
-        | [] => Some (None, s)                                               (* self.lines_iter.next()? *)
-        | (l, kd) :: rest =>
-            tsp_next k (TSP rest (sl_points l)
+        match gen_next (tsp_gen s) with
+        | (None, g) => Some (None, TSP g (tsp_current s) (tsp_color s) (tsp_fill s) (tsp_stroke s))   (* self.lines_iter.next()? *)
+        | (Some (l, kd), g) =>
+            tsp_next k (TSP g (sl_points l)
                           (match kd with PTStroke => tsp_stroke s | PTFill => tsp_fill s end)
                           (tsp_fill s) (tsp_stroke s))
         end in
       match tsp_color s with
       | Some c =>
           match tsp_current s with
-          | p :: r => Some (Some (p, c), TSP (tsp_lines s) r (tsp_color s) (tsp_fill s) (tsp_stroke s))
+          | p :: r => Some (Some (p, c), TSP (tsp_gen s) r (tsp_color s) (tsp_fill s) (tsp_stroke s))
           | [] => fetch
           end
       | None => fetch
       end
   end.
 
-Definition tsp_next_fuel (s : tsp_state) : nat := Datatypes.S (length (tsp_lines s)).
+(* each nested call of the loop consumes one item of the generator *)
+Definition gen_size (g : gen_state) : nat :=
+  (length (g_cur g) + fold_right (fun r acc => (length r + acc)%nat) O (g_rows g))%nat.
+Definition tsp_next_fuel (s : tsp_state) : nat := Datatypes.S (gen_size (tsp_gen s)).
 
 Fixpoint tsp_collect (n : nat) (s : tsp_state) : list (point * Z) :=
   match n with
@@ -80,15 +129,15 @@ Fixpoint tsp_collect (n : nat) (s : tsp_state) : list (point * Z) :=
   end.
 
 (* upper bound on the number of items: all points of all lines, plus the final None *)
-Definition tsp_fuel (lines : list (scanline * point_type)) : nat :=
-  Datatypes.S (fold_right (fun lk acc => (length (sl_points (fst lk)) + acc)%nat) O lines).
+Definition tsp_fuel (rows : list (list tline)) : nat :=
+  Datatypes.S (fold_right (fun lk acc => (length (sl_points (fst lk)) + acc)%nat) O (concat rows)).
 
-(* Styled<Triangle>::pixels() for a generator that yields `lines` *)
-Definition tri_styled_pixels (st : style) (lines : list (scanline * point_type)) : list (point * Z) :=
-  tsp_collect (tsp_fuel lines) (tsp_new st lines).
+(* Styled<Triangle>::pixels() for a generator whose rows yield `rows` *)
+Definition tri_styled_pixels (st : style) (rows : list (list tline)) : list (point * Z) :=
+  tsp_collect (tsp_fuel rows) (tsp_new st rows).
 
-(* styled.rs:86-121  draw_styled: the fill_solid calls *)
-Definition tri_draw_styled (st : style) (lines : list (scanline * point_type)) : list (rect * Z) :=
+(* styled.rs:86-121  draw_styled: the fill_solid calls, for the sequence `lines` the `for` loop sees *)
+Definition tri_draw_styled (st : style) (lines : list tline) : list (rect * Z) :=
   if is_transparent st then []
   else
     flat_map (fun lk =>
@@ -164,16 +213,21 @@ Definition poly_draw_styled_thin (st : style) (pl : polyline) : list (point * Z)
 
 (* ---- generator + consumer where the generator is modelled ------------------------------------------ *)
 
-(* triangle::ScanlineIterator for stroke width 0 (scanline_intersections.rs:45-49, 139-189): is_collapsed is false
-   (`stroke_width > 0 && ...`), there are no edge intersections, so every row is the triangle's scanline labelled Fill
-   when there is a fill colour, and nothing otherwise. *)
-Definition tri_gen_w0 (has_fill : bool) (t : triangle) : list (scanline * point_type) :=
-  if has_fill then map (fun s => (s, PTFill)) (tri_scanlines t) else [].
+(* The rows of triangle::ScanlineIterator for stroke width 0 (scanline_intersections.rs:45-49, 139-207): is_collapsed is
+   false (`stroke_width > 0 && ...`), there are no edge intersections, `internal` is the triangle's scanline of the row when
+   there is a fill colour and empty otherwise, and next() yields it (labelled Fill) only when it is not empty.
+   The rows are those of styled_bounding_box = bounding_box() (styled.rs:130), the triangle is sorted clockwise. *)
+Definition tri_rows_w0 (has_fill : bool) (t : triangle) : list (list tline) :=
+  let ct := sorted_clockwise t in
+  let '(y0, y1) := rows (tri_bounding_box t) in
+  map (fun y => let s := if has_fill then tri_scanline_intersection ct y else sl_new_empty y in
+                if sl_is_empty s then [] else [(s, PTFill)])
+      (range y0 y1).
 
 Definition has_fill (st : style) : bool := match fill_color st with Some _ => true | None => false end.
 
 Definition tri_styled_pixels_w0 (st : style) (t : triangle) : list (point * Z) :=
-  tri_styled_pixels st (tri_gen_w0 (has_fill st) t).
+  tri_styled_pixels st (tri_rows_w0 (has_fill st) t).
 
 Definition tri_draw_styled_w0 (st : style) (t : triangle) : list (rect * Z) :=
-  tri_draw_styled st (tri_gen_w0 (has_fill st) t).
+  tri_draw_styled st (for_sequence (tri_rows_w0 (has_fill st) t)).
